@@ -350,7 +350,7 @@ class TFLiteSemantic:
         "Input(s), Output and Weight tensors must have quantization parameters"
         valid = True
         extra = []
-        tensors = [tens for tens in op.get_ifm_ifm2_weights_ofm() if tens]
+        tensors = [tens for tens in op.get_all_ifms_weights_ofm() if tens]
         for tens in tensors:
             quant = tens.quantization
             # a scale without a zero point is an incomplete record: the scaling code reads both
@@ -365,7 +365,7 @@ class TFLiteSemantic:
         "Input(s), Output and Weight tensors with quantization scales must be finite"
         valid = True
         extra = []
-        tensors = [tens for tens in op.get_ifm_ifm2_weights_ofm() if tens]
+        tensors = [tens for tens in op.get_all_ifms_weights_ofm() if tens]
         for tens in tensors:
             if (
                 tens.quantization
